@@ -288,7 +288,7 @@ class BucketWriterAbort(_BW):
 
     def inputs(self):
         return {"entry": ChoiceK(["abort", "_abort_due_to_timeout", "disconnected"]), "closed": ChoiceK([False, True]),
-                "others_in_dir": ChoiceK([False, True])}
+                "others_in_dir": ChoiceK([False, True]), "other_si_in_prefix": ChoiceK([False, True])}
 
     def all_cases(self):
         cs = []
@@ -297,24 +297,32 @@ class BucketWriterAbort(_BW):
                 for o in (False, True):
                     if e == "_abort_due_to_timeout" and cl:
                         continue   # the timer is cancelled by close(); it cannot fire on a closed writer
-                    cs.append({"entry": e, "closed": cl, "others_in_dir": o})
+                    for p_ in (False, True):
+                        cs.append({"entry": e, "closed": cl, "others_in_dir": o, "other_si_in_prefix": p_})
         return cs
 
     def config(self):
         me = self
-        return {"listdir": lambda I, key: (["other"] if me._a["others_in_dir"] else [])}
+        def listdir(I, key):
+            if key == "incoming/ab/si":
+                return ["other"] if me._a["others_in_dir"] else []
+            return sorted(set(k[len(key) + 1:].split("/")[0] for k, st in I.disk.items() if st.exists and k.startswith(key + "/")))
+        return {"listdir": listdir}
 
     def run(self, I, a):
         self._a = a
-        I.disk["incoming/si/0"] = X.FileState(z3.Array("inc", IntS, IntS), z3.Int("inc_len"), exists=not a["closed"])
+        I.disk["incoming/ab/si/0"] = X.FileState(z3.Array("inc", IntS, IntS), z3.Int("inc_len"), exists=not a["closed"])
+        if a["other_si_in_prefix"]:
+            # another upload whose storage index shares the two-character prefix directory
+            I.disk["incoming/ab/si2/0"] = X.FileState(z3.Array("inc2", IntS, IntS), z3.Int("inc2_len"), exists=True)
         # the timer has fired (inactive) exactly when we are entered from the timeout
         timer = mk_timer(active=(a["entry"] != "_abort_due_to_timeout") and not a["closed"])
         ss = mk_ss()
-        bw = SObj(self.module().BucketWriter, {"ss": ss, "incominghome": PathTok("incoming/si/0"), "finalhome": PathTok("final/si/0"),
+        bw = SObj(self.module().BucketWriter, {"ss": ss, "incominghome": PathTok("incoming/ab/si/0"), "finalhome": PathTok("final/ab/si/0"),
                                                "closed": a["closed"], "_timeout": timer, "_sharefile": Opaque("sf"), "_max_size": 10})
         I.call_value(I.get_attr(bw, a["entry"]), [], {})
         out = Outcome("return", None)
-        out.post = {"closed": bw.fields["closed"], "incoming_exists": I.disk["incoming/si/0"].exists,
+        out.post = {"closed": bw.fields["closed"], "incoming_exists": I.disk["incoming/ab/si/0"].exists, "other_upload_intact": (not a["other_si_in_prefix"]) or I.disk["incoming/ab/si2/0"].exists,
                     "released": [c for c in ss.calls if c[0] == "bucket_writer_closed"], "timer_active": timer.state["active"], "bw": bw}
         return out
 
@@ -326,7 +334,8 @@ class BucketWriterAbort(_BW):
         return [("incoming-file-removed", z3.BoolVal(p["incoming_exists"] is False)),
                 ("reservation-released-exactly-once-with-0-bytes", z3.BoolVal(len(rel) == 1 and rel[0][1][0] is p["bw"] and rel[0][1][1] == 0)),
                 ("writer-is-closed", z3.BoolVal(p["closed"] is True)),
-                ("timer-not-left-active", z3.BoolVal(p["timer_active"] is False))]
+                ("timer-not-left-active", z3.BoolVal(p["timer_active"] is False)),
+                ("another-upload-in-the-same-prefix-directory-is-untouched", z3.BoolVal(p["other_upload_intact"] is True))]
 
 
 class BucketWriterClose(_BW):
